@@ -586,7 +586,7 @@ def state_outputs(spec):
     return {f'o{i}': n for i, n in enumerate(net.state_names)}
 
 
-def add_edge_templates(rng, spec, p=0.5, uniq=''):
+def add_edge_templates(rng, spec, p=0.5, uniq='', delayed=False):
     """turn a seeded share of the undelayed edges into template edges (gain / explicitly wired coupling, with optional
     per-edge override of the edge operator's constant)"""
     spec['ets'] = {f'et{j}{uniq}': {'name': f'et{j}{uniq}', 'opname': f'eop{j}{uniq}', 'lib': lib, 'kk': rng.randint(2, 24) / 16}
@@ -602,7 +602,7 @@ def add_edge_templates(rng, spec, p=0.5, uniq=''):
     with_kk = {k: rng.random() < 0.4 for k in spec['ets']}
     for lv in levels(spec):
         for e in lv.get('edges', []):
-            if e[2].get('delay') or e[2].get('spread') or rng.random() > p:
+            if ((e[2].get('delay') or e[2].get('spread')) and not delayed) or rng.random() > p:
                 continue
             k = rng.choice(sorted(spec['ets']))
             e[2]['et'] = k
